@@ -24,7 +24,8 @@ def expectedPx (v : Variant) (scr : Screen) (c : Client) (x y : Nat) : Option Px
 def ClientInv (v : Variant) (scr : Screen) (c : Client) : Prop :=
   c.pic.size = scr.w * scr.h ∧
   ∀ x y, x < scr.w → y < scr.h →
-    c.modified.mem scr.w x y = true ∨ c.pic[y * scr.w + x]? = expectedPx v scr c x y
+    c.modified.mem scr.w x y = true ∨
+    c.pic[y * scr.w + x]? = (expectedPx v scr c x y).map (transPx scr.fmt c.tfmt)
 
 /-- well-formed session: well-formed screen, distinct client ids -/
 def SessWF (s : Sess) : Prop := s.scr.WF ∧ (s.clients.map (·.id)).Nodup
@@ -149,8 +150,8 @@ theorem convertFor_richOf {v : Variant} {f : Format} {bpp : Nat} {r : Bool} {c0 
       | none => simp [hr] at h
       | some rich => rfl
 
-theorem cursorShapeRect_look {v : Variant} {s s' : Screen} {r : Bool} {m : List UInt8} (hs : s.WF)
-    (h : cursorShapeRect v s r = some (s', m)) :
+theorem cursorShapeRect_look {v : Variant} {s s' : Screen} {w : Wire} {r : Bool} {m : List UInt8} (hs : s.WF)
+    (h : cursorShapeRect v s w r = some (s', m)) :
     s'.WF ∧ SameLook v s.fmt s.bpp s'.cursor s.cursor := by
   unfold cursorShapeRect at h
   obtain ⟨⟨c', m'⟩, hcore, e⟩ := Option.map_eq_some_iff.mp h
@@ -221,12 +222,14 @@ theorem bracket_look {v : Variant} {s : Sess} {c : Client} {scr2 scr3 : Screen} 
 
 /-! ### an update establishes the invariant for its client and keeps it for the others -/
 
-theorem picUpdate_size (W H : Nat) (upd : Rgn) (fb pic : Array Px) : (picUpdate W H upd fb pic).size = W * H := by
+theorem picUpdate_size (W H : Nat) (upd : Rgn) (tr : Px → Px) (fb pic : Array Px) :
+    (picUpdate W H upd tr fb pic).size = W * H := by
   simp [picUpdate]
 
-theorem picUpdate_get {W H : Nat} {upd : Rgn} {fb pic : Array Px} {x y : Nat} (hx : x < W) (hy : y < H)
+theorem picUpdate_get {W H : Nat} {upd : Rgn} {tr : Px → Px} {fb pic : Array Px} {x y : Nat} (hx : x < W) (hy : y < H)
     (hfb : fb.size = W * H) (hp : pic.size = W * H) :
-    (picUpdate W H upd fb pic)[y * W + x]? = if upd.mem W x y then fb[y * W + x]? else pic[y * W + x]? := by
+    (picUpdate W H upd tr fb pic)[y * W + x]? =
+      if upd.mem W x y then (fb[y * W + x]?).map tr else pic[y * W + x]? := by
   have hlt : y * W + x < W * H := by rw [Nat.mul_comm W H]; exact lin_lt hy hx
   unfold picUpdate
   rw [Array.getElem?_ofFn]
@@ -265,7 +268,7 @@ theorem clientAfter_inv {v : Variant} {s : Sess} {c : Client} {scr2 scr3 : Scree
       obtain ⟨h1, _⟩ := bracket_soft_painted hsh hb
       obtain ⟨hwf, g1, g2, _⟩ := show_wf hs h1
       rw [hwf.fbSz, g1, g2]
-  refine ⟨by rw [hw3, hh3]; exact picUpdate_size _ _ _ _ _, ?_⟩
+  refine ⟨by rw [hw3, hh3]; exact picUpdate_size _ _ _ _ _ _, ?_⟩
   intro x y hx hy
   rw [hw3] at hx ⊢; rw [hh3] at hy
   -- the expectation after the update, in terms of the screen before it
@@ -273,7 +276,7 @@ theorem clientAfter_inv {v : Variant} {s : Sess} {c : Client} {scr2 scr3 : Scree
       expectedPx v s.scr (c.at (updCurX s c) (updCurY s c)) x y :=
     expectedPx_congr (by rw [hfb3]) hw3 hh3 hfmt3 hbpp3 hlook rfl rfl rfl
   show (Rgn.sub s.scr.w s.scr.h c.modified (Rgn.and s.scr.w s.scr.h c.modified c.requested)).mem s.scr.w x y = true ∨
-    (picUpdate s.scr.w s.scr.h (updRegion s c) scr2.fb c.pic)[y * s.scr.w + x]? = _
+    (picUpdate s.scr.w s.scr.h (updRegion s c) (transPx s.scr.fmt c.tfmt) scr2.fb c.pic)[y * s.scr.w + x]? = _
   rw [hexp, picUpdate_get hx hy hfb2sz hpsz, Rgn.mem_sub _ _ hx hy, Rgn.mem_and _ _ hx hy]
   by_cases hu : (updRegion s c).mem s.scr.w x y = true
   · right
